@@ -438,12 +438,16 @@ type vDialer struct {
 	wire  *vWire
 	wires []*vWire // if set: the n-th dial gets wires[n]
 	fail  bool
+	onDial func() // called after a successful dial (e.g. cancels the connect context)
 }
 
 func (d *vDialer) Dial(network, addr string) (net.Conn, error) {
 	d.addrs = append(d.addrs, addr)
 	if d.fail {
 		return nil, errors.New("vDialer: refused")
+	}
+	if d.onDial != nil {
+		d.onDial()
 	}
 	if n := len(d.addrs) - 1; n < len(d.wires) {
 		return d.wires[n], nil
